@@ -17,7 +17,6 @@ close+reopen, dirty crash+reopen, purge).  Crash enumeration (C07): worlds/store
 
 import collections
 import copy
-import json
 import os
 
 from sim import boot, core
@@ -97,7 +96,7 @@ DEFAULT_CFG = dict(
     mix_between=dict(remove=2, consume=1, reset=1, bump=3, reopen=1, purge=0, crash=0, trace=1, search=1, check=1),
     mix_actor=dict(add=1, record=1, next=1, versions=1, trace=1, search=1, facet=1, fesearch=1, check=2),
     kill=(0, 1), reset_conn=(0, 1), crash_mid=(0, 1), real_hash=(1, 50), stop_on=None, nonfatal=(),
-    enum=0, exdev=False, enospc=(0, 1), msv=(1, 6), max_images=160, mix_enum=dict(update=1), enum_clients=2, real_kill=(1, 3),
+    enum=0, exdev=False, enospc=(0, 1), msv=(1, 6), max_images=160, mix_enum=dict(update=1), enum_clients=2, enum_ops=2, real_kill=(1, 3),
 )
 
 
@@ -327,6 +326,11 @@ class StoreWorld:
                     k = keys[ch.choose('op.update_key', len(keys))]
                     if f'{k[2]}.{k[3]}' in self.spec.by:
                         a = self.spec.by[f'{k[2]}.{k[3]}']
+                        sibs = [x for x in self.spec.algs if x.pkg == a.pkg and x.name != a.name and x.kind == a.kind]
+                        if sibs and ch.flip('op.update_sibling', 1, 2):
+                            # ... or next to it: another algorithm of the same task on the same target and run
+                            # (name-addressed operations must then tell the siblings apart)
+                            a = sibs[ch.choose('op.update_sib', len(sibs))]
                         op['alg'], op['target'], op['run'] = a.full, k[1], k[0]
             if kind == 'update':
                 op['contents'] = {}
@@ -617,7 +621,7 @@ class StoreWorld:
             self.probes['targets_repeated'] += 1  # observed only; the table bijection is judged by check_catalogue
 
     # -- phases ----------------------------------------------------------------
-    def phase(self, ops=None, mix=None, max_clients=None, msv=True):
+    def phase(self, ops=None, mix=None, max_clients=None, msv=True, nops=None):
         ch, cfg = self.ch, self.cfg
         self.phase_no += 1
         self.clients = []
@@ -625,7 +629,7 @@ class StoreWorld:
             n = 1 + ch.choose('ph.nclients', max_clients or cfg['max_clients'])
             ops = []
             for i in range(n):
-                k = 1 + ch.choose('ph.nops', cfg['ops_per_client'])
+                k = 1 + ch.choose('ph.nops', nops or cfg['ops_per_client'])
                 ops.append([self.gen_client_op(mix=mix) for _ in range(k)])
             if not msv:
                 for lst in ops:
@@ -792,7 +796,9 @@ class StoreWorld:
         faults = dict(self.faults)
         if self.crash_points:
             faults['fault.crash_point_enumerated'] = self.crash_points
-        faults.update({k: v for k, v in sim.counts.items() if k.startswith('net.') and k not in ('net.connections', 'net.server_close')})
+        injected = ('net.chunked', 'net.delayed', 'net.coalesced', 'net.short_read', 'net.reset', 'net.refused', 'net.recv_after_reset',
+                    'net.abort_after_exception')
+        faults.update({k: v for k, v in sim.counts.items() if k in injected})
         interesting = sim.counts['sched.reordered'] > 0 or sum(self.faults.values()) > 0 or self.crash_points > 0
         nontrivial = self.model.acked >= 2 and (self.loads_checked + self.searches_checked + self.crash_points) >= 1 and interesting
         self.probes['connections'] += sim.counts['net.connections']
@@ -883,8 +889,8 @@ class StoreWorld:
         if sum(expect.values()) < len(before):
             self.probes['remove_with_bystanders'] += 1
         if gone != expect or appeared:
-            extra = sorted((gone - expect).keys())
-            missing = sorted((expect - gone).keys())
+            extra = sorted((gone - expect).keys(), key=repr)
+            missing = sorted((expect - gone).keys(), key=repr)
             kinds = set()
             for k in extra:
                 n = (k[0], k[1], k[2], k[3], k[5], k[7])
@@ -893,7 +899,7 @@ class StoreWorld:
                         kinds.add('prefix_sibling' if isinstance(a, str) and isinstance(b, str) and collides(b, a) else 'unrelated')
             sig = ('deleted_' + '+'.join(sorted(kinds))) if extra else ('missing' if missing else 'appeared')
             self.violate('C08', 'remove_not_exact', sig,
-                         f'{text} must delete exactly {sorted(expect)}; also deleted {extra}; not deleted {missing}', fatal=False)
+                         f'{text} must delete exactly {sorted(expect, key=repr)}; also deleted {extra}; not deleted {missing}', fatal=False)
         # the model follows what really happened so that later oracles stay meaningful
         self.model.drop(list(gone.keys()))
         for k in list(self.model.prime):
@@ -939,6 +945,12 @@ class StoreWorld:
         if not rows:
             return
         r = rows[ch.choose('bt.rs_row', len(rows))]
+        crowded = [x for x in rows if any(collides(x['alg'], y['alg']) and (y['run'], y['target'], y['task']) == (x['run'], x['target'], x['task'])
+                                          for y in rows)]
+        if crowded and ch.flip('bt.rs_crowded', 2, 3):
+            # a run/target/task in which a prefix-related sibling algorithm also has entries
+            r = crowded[ch.choose('bt.rs_crow', len(crowded))]
+            self.probes['reset_next_to_prefix_sibling'] += 1
         run, target, task = r['run'], r['target'], r['task']
         cands = [a for a in self.spec.algs if a.pkg == task]
         if not cands:
@@ -1097,7 +1109,7 @@ class StoreWorld:
         cat = self.catalogue()
         idx = {n: list(getattr(dbi.indices, n)) for n in env.TABLES if n != 'prime'}
         for kind, tn, msg in cat.check_bijection(idx):
-            self.violate('C08', 'table_' + kind, tn + (':after_reopen' if reopened else ''), f'[{why}] table {tn}: {msg}')
+            self.violate('C08', 'table_' + kind, 'after_reopen' if reopened else 'history', f'[{why}] table {tn}: {msg}')
         for tn, seen in self.seen_ids.items():
             tab = cat.t[tn]
             for name, i in seen.items():
@@ -1105,9 +1117,9 @@ class StoreWorld:
                     if crashed:
                         self.probes['name_lost_in_crash'] += 1
                         continue
-                    self.violate('C08', 'name_lost', tn + (':after_reopen' if reopened else ''), f'[{why}] {name!r} (id {i}) disappeared from table {tn}')
+                    self.violate('C08', 'name_lost', 'after_reopen' if reopened else 'history', f'[{why}] {name!r} (id {i}) disappeared from table {tn}')
                 elif tab[name] != i:
-                    self.violate('C08', 'id_changed', tn + (':after_reopen' if reopened else ''), f'[{why}] {name!r} had id {i}, now {tab[name]}')
+                    self.violate('C08', 'id_changed', 'after_reopen' if reopened else 'history', f'[{why}] {name!r} had id {i}, now {tab[name]}')
             if crashed:
                 self.seen_ids[tn] = dict(tab)
             else:
